@@ -2,7 +2,7 @@
    Only statements; proofs by reference (proofs/RotateProofs.v).  Model: model/Rotate.v
    (ctrl/qryn/maintenance/rotate.go: Rotate, rotateTables, storagePolicyUpdate, forgetSetting, get/putSetting). *)
 From Coq Require Import List ZArith Bool String.
-From Qryn Require Import model.Rotate model.RotateCfg model.RotateConc proofs.RotateProofs proofs.RotateCfgProofs proofs.RotateConcProofs.
+From Qryn Require Import model.Rotate model.RotateCfg model.RotateConc model.RotateClock proofs.RotateProofs proofs.RotateCfgProofs proofs.RotateConcProofs proofs.RotateClockProofs.
 Import ListNotations.
 Open Scope string_scope.
 Open Scope list_scope.
@@ -214,3 +214,34 @@ Theorem concurrent_different_configurations_diverge :
   converged_b cc_a (run_db cc_a None (s_db cc_final)) = false.
 Proof. exact conc_different_configs_diverge. Qed.
 Print Assumptions concurrent_different_configurations_diverge.
+
+(* ------------------------------------------------------------------ the settings table as rows with stamps
+   model/RotateClock.v: putSetting INSERTs a row stamped inserted_at; argMax(value, inserted_at) may answer the value
+   of any row of the fingerprint with a maximal stamp.  The model above keeps "the value inserted last" per
+   fingerprint (latest_insert: that map follows the INSERTs). *)
+
+(* Whenever the stamps of a fingerprint strictly increase in insertion order, the only answer ClickHouse can give is
+   the value inserted last; an INSERT stamped later than every row of its fingerprint keeps it so. *)
+Theorem settings_read_is_last_write : forall rows, strict rows ->
+  (forall k v, may_read rows k v <-> v = latest rows k) /\
+  (forall r, (forall r', In r' rows -> r_key r' = r_key r -> r_ts r' < r_ts r) -> strict (rows ++ [r])) /\
+  (forall k v ts k', latest (rows ++ [{| r_key := k; r_val := v; r_ts := ts |}]) k' = if k' =? k then v else latest rows k').
+Proof.
+  intros rows Hs. split; [|split].
+  - intros k v. split; [now apply strict_reads_latest|intros ->; now apply latest_may_be_read].
+  - intros r Hr. now apply insert_keeps_strict.
+  - intros k v ts k'. apply latest_insert.
+Qed.
+Print Assumptions settings_read_is_last_write.
+
+(* NOW() stamps whole seconds: the row emptying a record and the row recording the applied value 20 ms later tie, and
+   ClickHouse may answer the empty value although the applied one was inserted last (repaired in /repo e2e1fc9:
+   now64(9), whose stamps differ as soon as the clock moved). *)
+Theorem same_second_rows_tie : (exists clock rows,
+  rows = [ {| r_key := 987312111; r_val := ""; r_ts := stamp_now clock |};
+           {| r_key := 987312111; r_val := "date + toIntervalDay(60)"; r_ts := stamp_now (clock + 20000000) |} ] /\
+  ~ strict rows /\ latest rows 987312111 = "date + toIntervalDay(60)" /\
+  may_read rows 987312111 "" /\ may_read rows 987312111 "date + toIntervalDay(60)") /\
+  (forall clock dt, 0 < dt -> stamp_now64 clock < stamp_now64 (clock + dt)).
+Proof. split; [exact same_second_tie|exact now64_strict]. Qed.
+Print Assumptions same_second_rows_tie.
